@@ -103,6 +103,11 @@ impl VerifRelayTransport {
         }
     }
 
+    /// Closes the harness side of the send queue (senders then fail like with a dead actor).
+    pub fn close_send_queue(&mut self) {
+        self.send_rx.close();
+    }
+
     /// Creates a sender feeding this transport's send queue.
     pub(crate) fn create_sender(&self) -> RelaySender {
         self.transport.create_sender()
